@@ -32,6 +32,9 @@ SERVER_OPS = ["bind_response", "extended_response", "notice", "search_entry", "s
 # session rules.  Used in the inductive step and in BMC of depth <= 2.
 CLIENT_OPS_CTL = ["search@p", "extended@p", "recv_search_done@p", "recv_search_entry@p", "recv_bind_response@p", "recv_extended_response@p"]
 SERVER_OPS_CTL = ["search_done@p", "search_entry@p", "extended_response@p", "bind_response@p", "recv_search_request@p", "recv_bind_request@p"]
+# deliveries in two pieces ("@s", cut position symbolic): same rules as a whole delivery
+CLIENT_OPS_CTL += ["recv_notice@s", "recv_bind_response@s", "recv_search_done@s", "recv_extended_response@s"]
+SERVER_OPS_CTL += ["recv_unbind@s", "recv_bind_request@s", "recv_search_request@s", "recv_extended_request@s"]
 
 
 def po(ctx):
@@ -372,7 +375,17 @@ def do_op(ctx, sess, side, op, tag):
             info["mid"], info["code"] = mid, code
             msg = message_for(ctx, op, mid, code, ctl, tag)
             info["msg"] = msg
-            info["ret"] = sess.receive(msg.pack(po(ctx)))
+            data = msg.pack(po(ctx))
+            if variant == "s":
+                # the same message arriving in two pieces (cut position: solver variable); the
+                # session rules are stated per message, not per delivery
+                cut = ctx.int(f"{tag}.cut", 1, len(data) - 1)
+                first = sess.receive(data[:cut])
+                if len(first):
+                    ctx.fail("C02:incomplete-message-returned-something", op)
+                info["ret"] = sess.receive(data[cut:])
+            else:
+                info["ret"] = sess.receive(data)
         elif side == "client":
             t = ctx.str(f"{tag}.text", 1, 0x61, 0x7A)
             if op == "bind_simple":
